@@ -138,6 +138,12 @@ class RtlReader(object):
             if abs(pulses[i] - preamble[i]) > th_amp_diff:
                 return False
 
+        # the four pulses of a preamble have comparable amplitudes: a single
+        # strong pulse next to noise is not a preamble
+        highs = [pulses[i] for i in range(16) if preamble[i]]
+        if min(highs) < 0.5 * max(highs):
+            return False
+
         return True
 
     def _check_msg(self, msg) -> bool:
